@@ -151,6 +151,9 @@ func (r *Run) Guard(policy PanicPolicy, what string, f func()) (panicked bool) {
 	return false
 }
 
+// PanicSite returns the innermost repository frame of a panic stack.
+func PanicSite(st string) string { return panicSite(st) }
+
 func panicSite(st string) string {
 	// innermost frame under scionproto/scion
 	lines := strings.Split(st, "\n")
